@@ -9,7 +9,7 @@ import ast
 from svtstatic import poly
 from svtstatic.values import ExtRef, PyFunc, Closure, StrT, Hole
 from .common import *
-from .c17 import Elem, _wrap, SVGNS
+from .c17 import Elem, _wrap, SVGNS, own_object_per_element
 
 PROPERTY = 'C18'
 LEVEL = 'other'
@@ -35,6 +35,7 @@ def run(ctx):
     ctx.rule('R18.3', 'order: writers append in input order, readers return document order per tag', 2)
     ctx.rule('R18.4', 'generate_dom writes matrix(m00 m10 m01 m11 m02 m12): the inverse permutation of the matrix(...) reader', 1)
     ob = lambda r: Obligation(ctx, r)
+    own_object_per_element(ctx, mdl, 'R18.2')
 
     # ================================================================= writers: what element name do they create?
     facts = {}
